@@ -7,7 +7,7 @@
     over [throw-away scratch; context; imports] with builtins in its own dict part;
     [exec_globals]: shallow copy of the context plus __builtins__ and save).  Quantification is over ALL programs of the fragment,
     all contexts, heaps, module tables and builtins tables; no size bound. *)
-From PV Require Import PyScope PyScopeProofs.
+From PV Require Import PyScope PyScopeProofs GenC14 GenC14Proofs.
 Open Scope string_scope.
 
 (** * Reads *)
@@ -319,3 +319,53 @@ Example C14_import_survives_hidden_key_nonvacuous :
       [ Ok (CInt 5); Ok (CInt 2); Ok (CNative "math.gcd"); Ok (CList 1000 [CInt 1; CInt 2]) ]
       [("lst", CList 0 [CInt 1; CInt 2])] [("gcd", CNative "math.gcd")] []).
 Proof. vm_compute. reflexivity. Qed.
+
+(** * Tie B: the namespace-building lines of pypyr, translated from the CURRENT source by
+    tools/py2coq_c14.py (Gen/GenC14.v), are the model the theorems above are about *)
+
+(** Context.pystring_globals_update merges its whole argument into the imports namespace (dict.update) *)
+Theorem C14_source_pystring_globals_update_is_model : forall other s,
+  gen_pystring_globals_update other s
+  = (set_imps (ns_update (imps s) other) s, length (ns_update (imps s) other)).
+Proof. exact gen_globals_update_is_ns_update. Qed.
+Print Assumptions C14_source_pystring_globals_update_is_model.
+
+(** pypyr.steps.pyimport.run_step is one AImport step of [run_session] *)
+Theorem C14_source_pyimport_step_is_model : forall mt b blk r s,
+  run_session mt b (AImport blk :: r) s
+  = match pyimport_ns mt blk [] (loaded s) with
+    | Some (stepns, ld) => run_session mt b r (set_loaded ld (gen_pyimport_step stepns s))
+    | None => None
+    end.
+Proof. exact gen_pyimport_step_is_session. Qed.
+Print Assumptions C14_source_pyimport_step_is_model.
+
+(** Context.get_eval_string evaluates with ONE namespace object built by the call, whose maps are
+    [fresh dict; context; imports]: lookups are [chain_get], STORE_NAME is [store_name] into the scratch map *)
+Theorem C14_source_eval_namespace_is_model :
+  gen_eval_maps = [MFresh; MCtx; MImps] /\ gen_eval_one_namespace = true /\ gen_eval_empty_raises = true
+  /\ (forall x s, chain_lookup gen_eval_maps x s = chain_get x s)
+  /\ (forall E x v s, gk E = GChain -> cls E = false ->
+        store_name E x v s = match chain_store gen_eval_maps x v s with
+                             | Some s' => (Ok tt, s') | None => (Unsup, s) end).
+Proof.
+  repeat split; [exact gen_chain_lookup_is_chain_get|exact gen_chain_store_is_store_name].
+Qed.
+Print Assumptions C14_source_eval_namespace_is_model.
+
+(** class _ChainMapPretendDict overrides nothing of ChainMap's lookup/store protocol *)
+Theorem C14_source_namespace_class_is_model :
+  gen_namespace_bases = ["ChainMap"; "dict"]
+  /\ gen_namespace_methods = ["__init__"]
+  /\ gen_namespace_init = ["dict.__setitem__(self, '__builtins__', builtins.__dict__)"; "super().__init__(*maps)"].
+Proof. exact gen_namespace_class_is_model. Qed.
+Print Assumptions C14_source_namespace_class_is_model.
+
+(** pypyr.steps.py: the namespace handed to exec, and save *)
+Theorem C14_source_exec_globals_is_model : forall c, gen_exec_globals c = exec_globals c.
+Proof. exact gen_exec_globals_is_model. Qed.
+Print Assumptions C14_source_exec_globals_is_model.
+
+Theorem C14_source_save_is_model : forall names kvs s, gen_save names kvs s = do_save names kvs s.
+Proof. exact gen_save_is_do_save. Qed.
+Print Assumptions C14_source_save_is_model.
